@@ -177,7 +177,13 @@ func (m *xdsResourceManager) Get(ctx context.Context, rType xdsresource.Resource
 			return nil, fmt.Errorf("[XDS] manager, fetch %s resource[%s] failed, error=%s",
 				xdsresource.ResourceTypeToName[rType], rName, nf.err.Error())
 		}
-		res, _ = m.getFromCache(rType, rName)
+		res, ok = m.getFromCache(rType, rName)
+		if !ok {
+			// the resource has been removed again (e.g. by a later full response) before this
+			// caller could read it: report that instead of returning a nil resource.
+			return nil, fmt.Errorf("[XDS] manager, fetch %s resource[%s] failed, resource not found",
+				xdsresource.ResourceTypeToName[rType], rName)
+		}
 		return res, nil
 	case <-ctx.Done():
 		verifYield(ctx, 4, nil)
